@@ -176,6 +176,16 @@ pub struct Profile {
     pub adapter_kinds: Vec<AdapterKind>,
     pub max_spin_us: u16,
     pub unique_traces: bool,
+    /// directed templates mixed with free generation: (weight out of 10, template)
+    pub templates: Vec<(u32, Template)>,
+}
+
+#[derive(Clone, Copy, Debug, PartialEq)]
+pub enum Template {
+    /// fill the ring, cancel and/or finish a root while it is full, drain, send more
+    OverflowReplay,
+    /// root created on one vthread and finished / cancelled on another around a cycle
+    CrossQueue,
 }
 
 impl Profile {
@@ -209,6 +219,7 @@ impl Profile {
             adapter_kinds: vec![],
             max_spin_us: 0,
             unique_traces: false,
+            templates: vec![],
         }
     }
     pub fn set(mut self, ks: &[(K, u32)]) -> Self {
@@ -396,7 +407,71 @@ pub fn op_strategy(p: &Profile) -> BoxedStrategy<Op> {
     Union::new_weighted(v).boxed()
 }
 
+fn template_strategy(p: &Profile, t: Template) -> BoxedStrategy<Program> {
+    let op = op_strategy(p);
+    let canc = match p.cancelable {
+        Some(b) => Just(b).boxed(),
+        None => any::<bool>().boxed(),
+    };
+    let sched = proptest::collection::vec((any::<u8>(), 1u8..12), 0..=p.sched_len.1);
+    let root = Op::Root { tc: 0, tr: 0, pc: 0, pr: 0, sampled: true, np: 0, s: StrSeed { c: 0, l: 1 } };
+    match t {
+        Template::OverflowReplay => (
+            canc,
+            0u8..3,
+            any::<bool>(),
+            any::<bool>(),
+            proptest::collection::vec(op.clone(), 0..3),
+            proptest::collection::vec(op.clone(), 1..5),
+            proptest::collection::vec(op, 0..6),
+            2u8..8,
+            sched,
+        )
+            .prop_map(move |(cancelable, leave, do_cancel, child_first, pre, post, other, cycles, schedule)| {
+                let mut t0 = vec![root.clone()];
+                if child_first {
+                    t0.push(Op::Child { parents: vec![0], np: 0, s: StrSeed { c: 0, l: 1 } });
+                    t0.push(Op::Finish { span: 65535 });
+                }
+                t0.extend(pre);
+                t0.push(Op::Fill { leave });
+                if do_cancel {
+                    t0.push(Op::Cancel { span: 0 });
+                }
+                t0.push(Op::Finish { span: 0 });
+                t0.push(Op::Flush);
+                t0.extend(post);
+                Program { cancelable, threads: vec![t0, other], cycles, schedule }
+            })
+            .boxed(),
+        Template::CrossQueue => (canc, any::<bool>(), proptest::collection::vec(op.clone(), 0..4), proptest::collection::vec(op, 0..4), 1u8..5, sched)
+            .prop_map(move |(cancelable, do_cancel, a, b, cycles, schedule)| {
+                let mut t0 = vec![root.clone()];
+                t0.extend(a);
+                let mut t1 = vec![];
+                if do_cancel {
+                    t1.push(Op::Cancel { span: 0 });
+                }
+                t1.push(Op::Finish { span: 0 });
+                t1.extend(b);
+                Program { cancelable, threads: vec![t0, t1], cycles, schedule }
+            })
+            .boxed(),
+    }
+}
+
 pub fn program_strategy(p: &Profile) -> BoxedStrategy<Program> {
+    if !p.templates.is_empty() {
+        let mut v: Vec<(u32, BoxedStrategy<Program>)> = Vec::new();
+        let tw: u32 = p.templates.iter().map(|t| t.0).sum();
+        let mut free = p.clone();
+        free.templates.clear();
+        v.push((10u32.saturating_sub(tw).max(1), program_strategy(&free)));
+        for (w, t) in &p.templates {
+            v.push((*w, template_strategy(p, *t)));
+        }
+        return Union::new_weighted(v).boxed();
+    }
     let op = op_strategy(p);
     let (t0, t1) = p.threads;
     let (o0, o1) = p.ops;
